@@ -19,12 +19,17 @@ CHECK_DEADLOCK FALSE
 LEX = {
     "identifier": ["a", "P", "R", "f", "Ada", "fees", "source", "x1", "Int", "min_utxo", "tip_slot", "t", "K", "input", "café", "Émile", "a\u0301"],
     "number": ["7", "0", "-1", "\u0663", "\u22121", "18446744073709551616", "99999999999999999999", "-9223372036854775809",
-               "340282366920938463463374607431768211456"],
+               "340282366920938463463374607431768211456",
+               # the last numeral of every width and the first one beyond it (a 64-bit overflow need not have 20 digits)
+               "9223372036854775807", "9223372036854775808", "9999999999999999999", "-9223372036854775808", "18446744073709551615",
+               "4294967295", "4294967296", "2147483648", "-2147483649", "00000000000000000000007", "-0"],
     "string": ['"s"', '""', '"hé€"', "\u201cs\u201d", '"' + "x" * 70 + '"'],
     "bool": ["true", "false"],
     "hex_string": ["0x00", "0xabc", "0x" + "ab" * 40, "0xAB", "0x" + "11" * 28],
     "wildcard": ["*"],
-    "utxo_ref": ["0x" + "07" * 32 + "#1", "0xab#0", "0xabc#0", "0xab#99999999999999999999"],
+    "utxo_ref": ["0x" + "07" * 32 + "#1", "0xab#0", "0xabc#0", "0xab#99999999999999999999",
+                 "0x" + "07" * 32 + "#4294967295", "0x" + "07" * 32 + "#4294967296", "0x" + "07" * 32 + "#18446744073709551615",
+                 "0x" + "07" * 32 + "#18446744073709551616", "0x" + "07" * 32 + "#9223372036854775808", "0x#0", "0x" + "07" * 33 + "#0"],
 }
 SAME_NAMES = ["Z", "R", "a", "P"]      # Z: the alias being defined in the alias scaffold; R, P: a type / party of the prelude
 DEFINING = {"program", "type_def", "type", "env_def", "asset_def", "policy_def", "parameter_list", "locals_block", "tx_def"}
